@@ -104,7 +104,8 @@ CONF = {
     "C02": {
         "n": {"quick": 1200, "thorough": 16000},
         "shard": 600,
-        "trusted_base": ["the regular expressions listPathRe / listPropRe are re-implemented as string functions and compared on every generated path and on adversarial raw strings"],
+        "obligations": ["ConstC02.v"],
+        "trusted_base": ["the regular expressions listPathRe / listPropRe are re-implemented as string functions and compared on every generated path and on adversarial raw strings; the translator records the two pattern literals of the source on every run and the generated obligation gen/ConstC02.v re-proves that they are the ones the hand-written functions were written from"],
         "assumptions": ["keys are non-empty over [A-Za-z0-9_-] (key_safe); 'that very leaf' (pointer identity) is a Go-side oracle, the model compares values"],
     },
     "C04": {
@@ -116,7 +117,8 @@ CONF = {
     "C03": {
         "n": {"quick": 500, "thorough": 8000},
         "shard": 250,
-        "trusted_base": ["the regular expression listPathRe is re-implemented as a string function (strip_index) and compared on every generated component string"],
+        "obligations": ["ConstC02.v"],
+        "trusted_base": ["the regular expression listPathRe is re-implemented as a string function (strip_index) and compared on every generated component string; the translator records the pattern literal of the source on every run (generated obligation gen/ConstC02.v)"],
         "assumptions": ["no step indexes into an existing non-null non-list node (the property's domain); list operations address the list through a handle re-acquired with Lookup immediately before the call"],
     },
     "C01": {
